@@ -476,15 +476,8 @@ func ApplyConnectCAOperationFromRequest(state *state.Store, req *structs.CAReque
 
 		return true
 	case structs.CAOpSetRootsAndConfig:
-		act, err := state.CARootSetCAS(index, req.Index, req.Roots)
-		if err != nil {
-			return err
-		}
-		if !act {
-			return act
-		}
-
-		act, err = state.CACheckAndSetConfig(index, req.Config.ModifyIndex, req.Config)
+		// Both parts in one transaction: all or nothing.
+		act, err := state.CARootSetAndConfigCAS(index, req.Index, req.Roots, req.Config.ModifyIndex, req.Config)
 		if err != nil {
 			return err
 		}
